@@ -99,6 +99,7 @@ class BoolCFGLM(LM):
             self.model = CKYLM(cfg)
         else:
             raise ValueError(f"unrecognized option {alg}")
+        self.alg = alg
         super().__init__(eos=EOS, V=cfg.V)
 
     def p_next(self, context):
@@ -114,7 +115,11 @@ class BoolCFGLM(LM):
             AssertionError: If context contains out-of-vocabulary tokens
         """
         assert set(context) <= self.V, f"OOVs detected: {set(context) - self.V}"
-        p = self.model.next_token_weights(self.model.chart(context)).trim()
+        if self.alg == "cky":
+            # CKYLM wraps the incremental parser; its p_next would normalize
+            p = self.model.model.p_next(tuple(context)).trim()
+        else:
+            p = self.model.next_token_weights(self.model.chart(context)).trim()
         return Float.chart({w: 1 for w in p})
 
     def __call__(self, context):
